@@ -539,3 +539,53 @@ def rule_ancestorfact(ctx, prop: str) -> RuleResult:
         raise AnalysisError(f"ANCESTORFACT: expected >= 3 fact-recording cases in walk-back loops, found {n}")
     res.floor = 3
     return res
+
+
+def rule_renameuses(ctx, prop: str) -> RuleResult:
+    """`Alpha_Rename` gives every binder of the statements it is handed a NEW symbol and
+    renames the uses inside those statements.  Renaming a lone declaration
+    (`Alpha_Rename([alloc_stmt])`) and inserting it in front of existing statements leaves
+    those statements referring to the old symbol: the same function must then rename the
+    uses too (`_replace_reads` and `_replace_writes` with a `"name"` replacement)."""
+    ix = ctx.ix
+    res = RuleResult("RENAMEUSES")
+    m = ix.module(S)
+    n = 0
+    for f in m.funcs.values():
+        if not isinstance(f.node, ast.FunctionDef):
+            continue
+        # variables asserted / known to be a single Alloc statement
+        allocs = set()
+        for k in f.body_nodes():
+            if isinstance(k, ast.Assert) and isinstance(k.test, ast.Call) and last_name(k.test) == "isinstance" and len(k.test.args) == 2 and ast.unparse(k.test.args[1]) == "LoopIR.Alloc" and isinstance(k.test.args[0], ast.Name):
+                allocs.add(k.test.args[0].id)
+        for k in f.body_nodes():
+            if not (isinstance(k, ast.Call) and last_name(k) == "Alpha_Rename" and k.args and isinstance(k.args[0], ast.List) and len(k.args[0].elts) == 1):
+                continue
+            e = k.args[0].elts[0]
+            if not (isinstance(e, ast.Name) and e.id in allocs):
+                continue
+            n += 1
+            res.instances += 1
+            res.nontrivial += 1
+            res.analysed.append(f"{S}:{f.qualname}")
+            later = [c for c in f.body_nodes() if isinstance(c, ast.Call) and c.lineno > k.lineno]
+            def renames(fn):
+                for c in later:
+                    if last_name(c) == fn and any(f"{e.id}.name" in ast.unparse(a) for a in c.args):
+                        cb = c.args[4] if len(c.args) > 4 else None
+                        return True
+                return False
+            ok = renames("_replace_reads") and renames("_replace_writes")
+            res.ob(ok)
+            res.sample(f"{f.qualname}: the copy of `{e.id}` made by Alpha_Rename is followed by a renaming of its reads and writes: {ok}")
+            if not ok:
+                res.add(
+                    Finding("RENAMEUSES", S, k.lineno, f.qualname, f"Alpha_Rename([{e.id}])",
+                            f"{f.qualname} renames the declaration `{e.id}` on its own and inserts the copy in front of statements that still use the old symbol: "
+                            f"sink_alloc into an if/else leaves the else branch with `a: R` (new symbol) followed by uses of the old `a` — an undeclared variable (KeyError in the backend)")
+                )
+    if n < 1:
+        raise AnalysisError("RENAMEUSES: no lone-declaration Alpha_Rename found (anchor: DoSinkAlloc)")
+    res.floor = 1
+    return res
